@@ -16,7 +16,7 @@ PROP = "C01"
 def tier_cfg(tier):
     if tier == "quick":
         return {"depth": 2, "kd": 2, "ke": 1, "slice_depth": 0, "chain_depth": 3, "d_rows": inputs.D_ROWS_Q, "e_rows": inputs.E_ROWS_Q}
-    return {"depth": 2, "kd": 3, "ke": 2, "slice_depth": 3, "chain_depth": 4, "d_rows": inputs.D_ROWS, "e_rows": inputs.E_ROWS}
+    return {"depth": 2, "kd": 3, "ke": 2, "slice_depth": 2, "chain_depth": 4, "d_rows": inputs.D_ROWS, "e_rows": inputs.E_ROWS}
 
 
 def slice_menu(cols, roles, depth, hist):
